@@ -20,6 +20,7 @@ RULE = ('codes generated from the syntax tree of PAT_EVENT_CODE (weighted over a
         'lower case; distinct inputs')
 ASSUMPTIONS = ['"same families" is checked as: no family that accepts the input rejects the normal form, and the measurement '
                'kind is unchanged (strict equality is unattainable: e.g. "0 w" is a track-only spelling of the code "0W")']
+RULE = RULE + '; refusal cases include Unicode look-alikes of valid codes and format characters (%, braces, quotes, NUL)'
 
 FAMILIES = ['PAT_TRACK', 'PAT_HURDLES', 'PAT_ROAD', 'PAT_RELAYS', 'PAT_JUMPS', 'PAT_THROWS', 'PAT_MULTI',
             'PAT_RACES_FOR_DISTANCE', 'PAT_HIGHSCORING_EVENT', 'PAT_LOWSCORING_EVENT']
